@@ -7,7 +7,7 @@ import "strconv"
 //
 //verif:property C20
 //verif:expect-reach end
-//verif:bound two logical threads: SetSessionTicketKeys (a prepared key slice is installed under the lock) and ticketKeys(); footprint + lock-set check
+//verif:bound two logical threads: SetSessionTicketKeys with one key (a prepared key slice is installed under the lock) and what Conn.encryptTicket does with the keys (key := ticketKeys()[0], then reads of the copy); footprint + lock-set check; natively each thread repeats its call 3000 times under the race detector
 //verif:outside ticketKeyFromBytes (SHA-512 of the key material) is replaced by a stub: it works on its argument only
 //verif:stub-symbolic github.com/tjfoc/gmsm/gmtls.ticketKeyFromBytes zzStubTicketKeyFromBytes
 func zzH_c20_config_ticketkeys() {
@@ -18,8 +18,25 @@ func zzH_c20_config_ticketkeys() {
 		k[i] = vU8("k." + strconv.Itoa(i))
 	}
 	var got []ticketKey
-	vParallel(func() { c.SetSessionTicketKeys([][32]byte{k}) }, func() { got = c.ticketKeys() })
+	var sink byte
+	n := 1
+	if vNative() {
+		n = 3000
+	}
+	vParallel(func() {
+		for i := 0; i < n; i++ {
+			c.SetSessionTicketKeys([][32]byte{k})
+		}
+	}, func() {
+		for i := 0; i < n; i++ {
+			got = c.ticketKeys()
+			// as encryptTicket/decryptTicket: the published slice is read after the lock is released
+			key := got[0]
+			sink ^= key.keyName[0] ^ key.aesKey[0] ^ key.hmacKey[0]
+		}
+	})
 	vAssert("reader-sees-old-or-new", len(got) == 1)
+	_ = sink
 	vReach("end")
 }
 
